@@ -20,7 +20,7 @@ func init() {
 		Explanation: "C14.range: interprocedural constant-set propagation closed under negation: every return of Ver.Compare, DefaultComparePreRelease and the functions below it is in {−1,0,1}. " +
 			"C14.swap: DefaultComparePreRelease evaluated over the length orderings with the scan left uninterpreted: out(a,b) = −out(b,a) holds syntactically for len(a) ≠ len(b); for equal lengths the residual obligation cPR(a,b) = −cPR(b,a) is listed as not decided. C14.suffix: the remainder comparison as a decision table: all-digit remainders are ordered by length after trimming zeros, then lexically; anything else lexically; the sign convention is that of the caller. " +
 			"C14.core: Ver.Compare over the 27 core orderings (as C06.core) gives reflexivity on the core and antisymmetry of the core part. C14.build: no read of Ver.Build on the comparison path. " +
-			"C14.latest: Ver.Latest returns one of its two operands unchanged and the argument only when Compare = −1. C14.entry: the six string helpers (as C06.entry). " +
+			"C14.latest: Ver.Latest returns one of its two operands unchanged and the argument only when Compare = −1. C14.entry: the six string helpers (as C06.entry), including: an error is returned only behind the failing edge of one of the two parse calls, so a helper fails exactly when a text is invalid for its parser. " +
 			"C14.next: NextMajor/Minor/Patch results are (inc,0,0), (copy,inc,0), (copy,copy,inc) with empty PreRelease/Build, inc being word 0 of bits.Add64(field,1,0), and the only panic is on the carry ≠ 0 edge.",
 		NotDecided:  []string{"reflexivity/antisymmetry inside the byte scan of comparePreRelease for equal lengths (value-level string scan): residual obligation cPR(a,b) = −cPR(b,a)"},
 		Assumptions: []string{"strings.Compare ∈ {−1,0,1} and is antisymmetric", "bits.Add64 returns sum and carry"},
@@ -38,7 +38,7 @@ func runC14(e *Env) {
 	ruleC14Latest(e)
 	ruleC14Next(e)
 	e.S.Floor("C14.core", 28)
-	e.S.Floor("C14.entry", 24)
+	e.S.Floor("C14.entry", 30)
 	e.S.Floor("C14.range", 3)
 	e.S.Floor("C14.swap", 3)
 	e.S.Floor("C14.latest", 3)
@@ -309,8 +309,10 @@ func ruleSuffix(e *Env, rule string) {
 
 // ---- C14.latest
 
-func ruleC14Latest(e *Env) {
-	const rule = "C14.latest"
+func ruleC14Latest(e *Env) { ruleLatest(e, "C14.latest") }
+
+// ruleLatest: Ver.Latest returns one of its two operands unchanged, the argument exactly when Compare = −1.
+func ruleLatest(e *Env, rule string) {
 	fn := e.Method(rule, "sem", "Ver", "Latest")
 	cmp := e.P.Method("sem", "Ver", "Compare")
 	sp := e.P.ByName["sem"]
